@@ -118,6 +118,7 @@ type VisitCtx struct {
 	Held   []string
 	Stack  []string
 	Guards []GAtom // guards of the enclosing call chain + of the instruction
+	Frames []ssa.Instruction // call instructions of the enclosing call chain (outermost first)
 	EP     string
 	W      *LockWalker
 }
@@ -125,6 +126,7 @@ type VisitCtx struct {
 type LockWalker struct {
 	Visit    func(*VisitCtx)
 	gstack   [][]GAtom
+	fstack   []ssa.Instruction
 	P        *Prog
 	Events   []LEvent
 	Visited  map[*ssa.Function]bool
@@ -359,7 +361,7 @@ func (w *LockWalker) step(fn *ssa.Function, r *Resolver, ins ssa.Instruction, st
 	if rec && w.Visit != nil {
 		if _, isRD := ins.(*ssa.RunDefers); !isRD {
 			if _, isDefer := ins.(*ssa.Defer); !isDefer {
-				w.Visit(&VisitCtx{Fn: fn, R: r, Ins: ins, Held: st.heldList(), Stack: stack, Guards: append(w.ctxGuards(), guardAtoms(r, ins)...), EP: w.EP, W: w})
+				w.Visit(&VisitCtx{Fn: fn, R: r, Ins: ins, Held: st.heldList(), Stack: stack, Guards: append(w.ctxGuards(), guardAtoms(r, ins)...), Frames: append([]ssa.Instruction{}, w.fstack...), EP: w.EP, W: w})
 			}
 		}
 	}
@@ -635,8 +637,10 @@ func (w *LockWalker) call(fn *ssa.Function, r *Resolver, ins ssa.Instruction, cc
 							nr.Env[k] = v
 						}
 						w.gstack = append(w.gstack, guardAtoms(r, ins))
+			w.fstack = append(w.fstack, ins)
 						w.analyze(f, nr, st, rec, append(append([]string{}, stack...), funcDisplayName(f)))
 						w.gstack = w.gstack[:len(w.gstack)-1]
+			w.fstack = w.fstack[:len(w.fstack)-1]
 					}
 				}
 			}
@@ -670,8 +674,10 @@ func (w *LockWalker) call(fn *ssa.Function, r *Resolver, ins ssa.Instruction, cc
 				w.ev(rec, LEvent{Kind: "mapop", What: pathName(r.Of(args[0])), Detail: name, Pos: pos, Fn: fname, Held: st.heldList(), Stack: stack})
 			}
 			w.gstack = append(w.gstack, guardAtoms(r, ins))
+			w.fstack = append(w.fstack, ins)
 			res = w.analyze(cal, nr, st, rec, append(append([]string{}, stack...), funcDisplayName(cal)))
 			w.gstack = w.gstack[:len(w.gstack)-1]
+			w.fstack = w.fstack[:len(w.fstack)-1]
 		}
 		if first {
 			out = res
@@ -706,24 +712,65 @@ func (w *LockWalker) cgCallees(ins ssa.Instruction) []*ssa.Function {
 }
 
 
-// guardAtoms renders the guards of an instruction in resolver r.
+// guardAtoms renders the guards of an instruction in resolver r. A guard
+// that is the result of a repository predicate function is expanded into
+// the conditions that result implies (resolved in the predicate with its
+// parameters bound to the caller's arguments).
 func guardAtoms(r *Resolver, ins ssa.Instruction) []GAtom {
 	var out []GAtom
 	for _, g := range GuardsOf(ins) {
 		a := atomsOf(g)
-		ga := GAtom{Pos: a.Pos, V: a.V, R: r}
-		switch x := a.V.(type) {
-		case *ssa.BinOp:
-			ga.Op = x.Op.String()
-			ga.X, ga.Y = r.Of(x.X), r.Of(x.Y)
-		case *ssa.Call:
-			ga.Op = "call"
-			ga.X = r.Of(x)
-		default:
-			ga.Op = "value"
-			ga.X = r.Of(a.V)
+		out = append(out, mkGAtom(r, a))
+		out = append(out, expandPredicate(r, a, 0)...)
+	}
+	return out
+}
+
+func mkGAtom(r *Resolver, a Atom) GAtom {
+	ga := GAtom{Pos: a.Pos, V: a.V, R: r}
+	switch x := a.V.(type) {
+	case *ssa.BinOp:
+		ga.Op = x.Op.String()
+		ga.X, ga.Y = r.Of(x.X), r.Of(x.Y)
+	case *ssa.Call:
+		ga.Op = "call"
+		ga.X = r.Of(x)
+	default:
+		ga.Op = "value"
+		ga.X = r.Of(a.V)
+	}
+	return ga
+}
+
+func expandPredicate(r *Resolver, a Atom, depth int) []GAtom {
+	cl, ok := a.V.(*ssa.Call)
+	if !ok || depth > 2 {
+		return nil
+	}
+	sc := staticCallee(cl.Common())
+	if sc == nil || !InRepo(sc) || sc.Blocks == nil {
+		return nil
+	}
+	res := sc.Signature.Results()
+	if res.Len() != 1 {
+		return nil
+	}
+	if b, isB := res.At(0).Type().Underlying().(*types.Basic); !isB || b.Kind() != types.Bool {
+		return nil
+	}
+	nr := NewResolver(r.P)
+	for k, v := range r.Env {
+		nr.Env[k] = v
+	}
+	for i, prm := range sc.Params {
+		if i < len(cl.Call.Args) {
+			nr.Env[prm] = r.Of(cl.Call.Args[i])
 		}
-		out = append(out, ga)
+	}
+	var out []GAtom
+	for _, pa := range predicateAtoms(sc, a.Pos) {
+		out = append(out, mkGAtom(nr, pa))
+		out = append(out, expandPredicate(nr, pa, depth+1)...)
 	}
 	return out
 }
